@@ -266,9 +266,7 @@ func pmKey(s *pState) []byte {
 			continue
 		}
 		b = append(b, 1)
-		for _, w := range alpha.PointRaw(&s.P[i]) {
-			b = append(b, byte(w), byte(w>>8), byte(w>>16), byte(w>>24), byte(w>>32), byte(w>>40), byte(w>>48), byte(w>>56))
-		}
+		b = append(b, alpha.PointRaw(&s.P[i])...)
 	}
 	return b
 }
@@ -296,6 +294,11 @@ func pmCheckReg(p *edwards25519.Point, want ref.Pt) *core.Fail {
 	if got := p.Equal(implGenerator()); got != eqG {
 		return core.Failf("Equal(generator)=%d want %d for %s", got, eqG, want)
 	}
+	// the other encoding of the same point must agree with the model too
+	// (whatever history the register has)
+	if m := ref.Montgomery(want); !bytes.Equal(p.BytesMontgomery(), m[:]) {
+		return core.Failf("BytesMontgomery()=%x, model %x for %s", p.BytesMontgomery(), m[:], want)
+	}
 	return nil
 }
 
@@ -305,7 +308,7 @@ func pmApply(s *pState, op string) (bool, *core.Fail) {
 	name := f[0]
 	r := atoi(f[1])
 	recv := &s.P[r]
-	var rawBefore [nPReg][20]uint64
+	var rawBefore [nPReg]alpha.RawPoint
 	for i := range s.P {
 		rawBefore[i] = alpha.PointRaw(&s.P[i])
 	}
